@@ -232,10 +232,10 @@ def work(task):
 
 def run(tier):
     res = Result(PID)
-    d = 7 if tier == "quick" else 9
+    d = 8 if tier == "quick" else 11
     tasks = [("ld", 3, d), ("hq", 3, d + 1), ("ld", 2, d), ("hq", 2, d), ("ld", 500, 4), ("hq", 500, 4)]
     if tier != "quick":
-        tasks += [("ld", 4, d), ("hq", 4, d)]
+        tasks += [("ld", 4, d), ("hq", 4, d), ("ld", 5, d), ("hq", 5, d), ("ld", 1, d), ("hq", 1, d), ("ld", 500, 6), ("hq", 500, 6)]
     out = pmap(work, tasks)
     for o in out:
         for key, what, w in o[2]:
@@ -243,8 +243,8 @@ def run(tier):
     res.coverage = {"states": sum(o[0] for o in out), "transitions": sum(o[1] for o in out),
                     "traces_validated_against_impl": sum(o[1] for o in out),
                     "evaluations": sum(o[1] for o in out), "distinct_nontrivial": sum(o[0] for o in out),
-                    "rule": "BFS over operation sequences (LockingDeque: %s; queued chart: %s) to depth %d with capacity 2, 3 "
-                            "(and 500 to depth 4), deduplicated on (relative order of contents, token count); every transition "
+                    "rule": "BFS over operation sequences (LockingDeque: %s; queued chart: %s) to depth %d with capacity 2, 3 (thorough: 1-5) "
+                            "(and 500 to depth 4, thorough 6), deduplicated on (relative order of contents, token count); every transition "
                             "executed on the real object rebuilt by replaying its path" % (OPS_LD, OPS_HQ, d),
                     "samples": [s for o in out for s in o[3]][:3], "exhaustive": True}
     res.assumptions = ["which old event a post to a full queue displaces is not constrained (only: new event at its end, "
